@@ -15,6 +15,8 @@
 (*   front vectors bound      (c_inference_pareto_front, C17)              *)
 (*   save o file ok ranks aux | load file o ranks                          *)
 (*   same a b                 (two projections that must be equal, C20)    *)
+(*   zview o layers extended inf_index inf_keys sizes                      *)
+(*                            (System Z object's partition accessors)      *)
 (***************************************************************************)
 EXTENDS Ocf, InfOCFSem, Json, IOUtils
 
@@ -101,7 +103,23 @@ TSave ==
 TLoad == IsEvent("load") /\ Load(Cur.file) /\ Cur.o = Len(objs') /\ RanksAre(Cur.o, Cur.ranks)
 TSame == IsEvent("same") /\ Cur.a = Cur.b /\ UNCHANGED <<objs, disk>>
 
-TMatch == TConstruct \/ TRank \/ TAll \/ TFRank \/ TAccept \/ TZop \/ TCop \/ TFront \/ TIsOcf \/ TCondExisting \/ TSave \/ TLoad \/ TSame
+(* the partition a System Z ranking object reports about itself (partition_layer_sizes, uses_extended_partition, *)
+(* infinity_partition_index, infinity_partition) is the tolerance partition of the augmented base; a reloaded    *)
+(* copy reports the same                                                                                          *)
+TZView ==
+    /\ IsEvent("zview") /\ E.kind = "z" /\ Cur.o \in DOMAIN objs
+    /\ LET pr == PartitionResult(ZBase, WS, ZMode)
+           n  == Len(pr[2])
+       IN  /\ pr[1]
+           /\ Len(Cur.layers) = n /\ \A i \in 1..n : ToSet(Cur.layers[i]) = pr[2][i] /\ Len(Cur.layers[i]) = Cardinality(pr[2][i])
+           /\ Len(Cur.sizes) = n /\ \A i \in 1..n : Cur.sizes[i] = Cardinality(pr[2][i])
+           /\ Cur.extended = ZMode
+           /\ Cur.inf_index = (IF ZMode THEN n - 1 ELSE 0 - 1)
+           /\ (ZMode => ToSet(Cur.inf_keys) = pr[2][n])
+           /\ (~ZMode => Cur.inf_keys = <<>>)
+    /\ UNCHANGED <<objs, disk>>
+
+TMatch == TZView \/ TConstruct \/ TRank \/ TAll \/ TFRank \/ TAccept \/ TZop \/ TCop \/ TFront \/ TIsOcf \/ TCondExisting \/ TSave \/ TLoad \/ TSame
 
 Reject ==
     /\ t > 0 /\ l <= Len(Ev) /\ ~ENABLED TMatch
